@@ -259,12 +259,40 @@ const polyItemsDDL = "CREATE TABLE p_things (id integer PRIMARY KEY, name text, 
 // polyItems: two items per owner table and owner id 1 / 2
 const polyItemsRows = "INSERT INTO p_things VALUES (1,'a',1,'p_owners'),(2,'b',1,'p_owners'),(3,'c',2,'p_owners'),(4,'a',1,'ps_owners'),(5,'b',2,'ps_owners')"
 
+// ZItem: the soft-delete column of live rows holds a zero time instead of NULL
+// (tag zeroValue); the automatic filter is `deleted_at = '<zero>'`.
+type ZItem struct {
+	ID        int `gorm:"primaryKey"`
+	Ca        int
+	Cb        int
+	Cs        string
+	Cn        *int
+	Ct        *string
+	Cor       int
+	Band      string
+	Mark      int
+	DeletedAt gorm.DeletedAt `gorm:"zeroValue:1970-01-01 00:00:01;default:'1970-01-01 00:00:01'"`
+}
+
+func (ZItem) TableName() string { return "z_items" }
+
+const zeroDeletedAt = "1970-01-01 00:00:01"
+
 type modelKind struct {
 	Name    string
 	Spec    cond.TableSpec
 	Type    reflect.Type
 	ZeroRow bool // the table holds a row whose key is 0 (composite: 0,0)
 	Poly    bool // owns polymorphic items (table p_things)
+	ZeroVal bool // live rows hold zeroDeletedAt in the soft-delete column
+}
+
+// live reports whether the stored row is a live one of the model.
+func (m modelKind) live(s cond.Stored) bool {
+	if m.ZeroVal {
+		return s.DeletedAt == "'"+zeroDeletedAt+"'"
+	}
+	return s.Live()
 }
 
 func (m modelKind) Zero() interface{} { return reflect.New(m.Type).Interface() } // &T{}
@@ -320,10 +348,11 @@ var models = map[string]modelKind{
 	"defaults-soft": {Name: "defaults-soft", Spec: cond.TableSpec{Name: "ds_items", Soft: true, Extra: []string{"flag", "num", "str"}}, Type: reflect.TypeOf(DSItem{})},
 	"poly":          {Name: "poly", Spec: cond.TableSpec{Name: "p_owners"}, Type: reflect.TypeOf(POwner{}), Poly: true},
 	"poly-soft":     {Name: "poly-soft", Spec: cond.TableSpec{Name: "ps_owners", Soft: true}, Type: reflect.TypeOf(PSOwner{}), Poly: true},
+	"zerovalue":     {Name: "zerovalue", Spec: cond.TableSpec{Name: "z_items", Soft: true, SoftDefault: "'" + zeroDeletedAt + "'"}, Type: reflect.TypeOf(ZItem{}), ZeroVal: true},
 	"compkey-soft":  {Name: "compkey-soft", Spec: cond.TableSpec{Name: "cs_items", Soft: true, Extra: []string{"k2"}}, Type: reflect.TypeOf(CSItem{}), ZeroRow: true},
 }
 
-var modelNames = []string{"plain", "soft", "soft2", "softcol", "softemb", "soft2emb", "appkey", "appkey-soft", "compkey", "compkey-soft", "defaults", "defaults-soft", "poly", "poly-soft"}
+var modelNames = []string{"plain", "soft", "soft2", "softcol", "softemb", "soft2emb", "appkey", "appkey-soft", "compkey", "compkey-soft", "defaults", "defaults-soft", "poly", "poly-soft", "zerovalue"}
 
 // basic models are enumerated to the full length, the variants one call shorter
 func basicModel(n string) bool { return n == "plain" || n == "soft" }
@@ -355,6 +384,9 @@ func baseRows(m modelKind) []cond.InsertRow {
 	}
 	for i := range rows {
 		rows[i].Extra = make([]int, len(m.Spec.Extra)) // further key parts are 0
+		if m.ZeroVal && rows[i].DeletedAt == "" {
+			rows[i].DeletedAt = zeroDeletedAt
+		}
 	}
 	return rows
 }
@@ -903,7 +935,7 @@ func checkFree(c Case) (string, error) {
 	if res.Error != nil {
 		return fmt.Sprintf("AllowGlobalUpdate is on but the statement failed: %v", res.Error), nil
 	}
-	visible := func(s cond.Stored) bool { return !m.soft() || unscoped || s.Live() }
+	visible := func(s cond.Stored) bool { return !m.soft() || unscoped || m.live(s) }
 	idx := map[int]cond.Stored{}
 	for _, a := range after {
 		idx[a.ID] = a
@@ -919,7 +951,7 @@ func checkFree(c Case) (string, error) {
 			affected++
 		case m.soft() && !unscoped:
 			affected++
-			if !exists || a.Live() {
+			if !exists || m.live(a) {
 				return fmt.Sprintf("global soft delete left row id %d live: %s", b.ID, dumpString(after)), nil
 			}
 			want.DeletedAt = a.DeletedAt
